@@ -43,6 +43,15 @@ def raw_set(which):
                O(8, "q", []), O(9, "Jump", [12]), O(10, "s", []), O(12, "SwitchRandom", [4]), O(13, "Case", [0, 17]),
                O(14, "CaseVariable", [5, C("$W"), 19]), O(15, "v", []), O(16, "Jump", [21]), O(17, "t", []), O(18, "Jump", [21]),
                O(19, "u", []), O(21, "Hold", [])]
+    elif which == "S":   # one if / else: a single common-next-vertex search (small enough for two preemptions in the quick tier)
+        ops = [O(1, "a", []), O(2, "BranchDebug", [1, 6]), O(3, "c", []), O(4, "Jump", [7]), O(6, "b", []), O(7, "d", []), O(8, "End", [])]
+    elif which == "T":   # same shape (edge ids coincide with S), other payload
+        ops = [O(1, "p", []), O(2, "BranchEdit", [1, 6]), O(3, "r", []), O(4, "Jump", [7]), O(6, "q", []), O(7, "s", []), O(8, "Hold", [])]
+    elif which == "L":   # forever with a break_loop and code behind it (the writers keep a stack of open loops)
+        ops = [O(1, "z", []), O(2, "a", []), O(3, "BranchDebug", [1, 8]), O(6, "b", []), O(7, "Jump", [2]), O(8, "c", []), O(9, "End", [])]
+    elif which == "M":   # the same with other payload and a longer body
+        ops = [O(1, "o", []), O(2, "p", []), O(3, "BranchEdit", [1, 9]), O(6, "q", []), O(7, "r", []), O(8, "Jump", [2]), O(9, "s", []),
+               O(10, "t", []), O(11, "Hold", [])]
     else:                # Z: loop + ifs, different size
         ops = [O(1, "k", []), O(2, "BranchVariation", [1, 6]), O(3, "l", []), O(4, "Jump", [1]), O(6, "Branch", [C("$Q"), 2, 9]),
                O(7, "m", []), O(8, "Jump", [10]), O(9, "n", []), O(10, "Return", [])]
@@ -69,11 +78,13 @@ def body_compile(text, tag):
 BODIES = {
     "dX": lambda: body_decompile("X"), "dY": lambda: body_decompile("Y"), "dZ": lambda: body_decompile("Z"),
     "cA": lambda: body_compile(TEXT_A, "A"), "cB": lambda: body_compile(TEXT_B, "B"),
+    "dL": lambda: body_decompile("L"), "dM": lambda: body_decompile("M"),
+    "dS": lambda: body_decompile("S"), "dT": lambda: body_decompile("T"),
 }
 
 
 def make_setup(names, granularity):
-    """granularity: 'memo-lines' | 'memo-lines+entries' | 'antlr-lines' | 'antlr-entries'"""
+    """granularity: 'memo-lines' | 'memo-lines+entries' | 'antlr-lines' | 'antlr-entries' | 'writer-entries'"""
     def setup(s):
         from explorerscript.ssb_converting.decompiler.graph_building import graph_utils, graph_minimizer
         import explorerscript.ssb_converting.ssb_decompiler as dec
@@ -85,6 +96,20 @@ def make_setup(names, granularity):
             line_codes += memo
             if "entries" in granularity:
                 entry_codes += sched.code_objects_of(graph_minimizer) + sched.code_objects_of(graph_utils) + sched.code_objects_of(dec)
+        if granularity == "loop-writer-entries":
+            import importlib
+            base = "explorerscript.ssb_converting.decompiler.write_handlers."
+            for mod in ("labels.forever_start", "label_jumps.forever_break", "label_jumps.forever_continue"):
+                entry_codes += sched.code_objects_of(importlib.import_module(base + mod))
+            entry_codes += sched.code_objects_of(importlib.import_module(base + "block"), {"write_content"})
+        if granularity == "writer-entries":
+            # the write handlers share class-level state of the decompiler (labels already printed, stack of open loops)
+            import importlib
+            base = "explorerscript.ssb_converting.decompiler.write_handlers."
+            for mod in ("block", "label", "label_jump", "routine", "labels.forever_start", "label_jumps.forever_break",
+                        "label_jumps.forever_continue", "label_jumps.if_start", "label_jumps.jump", "simple_op"):
+                entry_codes += sched.code_objects_of(importlib.import_module(base + mod))
+            entry_codes += sched.code_objects_of(dec)
         if granularity.startswith("antlr"):
             import antlr4.atn.ParserATNSimulator as P
             import antlr4.atn.LexerATNSimulator as L
@@ -137,12 +162,15 @@ def run(tier, seed):
         return replay(os.environ["VERIF_REPLAY_FILE"])
     if quick:
         plans = [(("dX", "dY"), "memo-lines", 1), (("dX", "dZ"), "memo-lines+entries", 1), (("dZ", "dX"), "memo-lines", 1),
-                 (("cA", "cB"), "antlr-entries", 1), (("cA", "dX"), "antlr-entries", 1)]
+                 (("cA", "cB"), "antlr-entries", 1), (("cA", "dX"), "antlr-entries", 1), (("dL", "dM"), "writer-entries", 1),
+                 # two preemptions on the smallest inputs that reach the shared state
+                 (("dS", "dT"), "memo-lines", 2), (("dL", "dM"), "loop-writer-entries", 2)]
     else:
         # sized by the 'schedules_at_next_bound' figures of the quick tier (about 60 executions / s on 16 cores)
         plans = [(("dX", "dY"), "memo-lines", 2), (("dZ", "dY"), "memo-lines", 2), (("dX", "dX"), "memo-lines", 2),
                  (("dX", "dZ"), "memo-lines+entries", 1), (("cA", "cB"), "antlr-lines", 1), (("cB", "cA"), "antlr-entries", 1),
-                 (("cA", "dX"), "antlr-entries", 2), (("dX", "dY", "dZ"), "memo-lines", 1), (("cA", "cB", "dX"), "antlr-entries", 1)]
+                 (("cA", "dX"), "antlr-entries", 2), (("dX", "dY", "dZ"), "memo-lines", 1), (("cA", "cB", "dX"), "antlr-entries", 1),
+                 (("dL", "dM"), "writer-entries", 2)]
     if os.environ.get("VERIF_C12_ONLY"):   # development only: "dX,dY:memo-lines:2"
         names, gran, bound = os.environ["VERIF_C12_ONLY"].split(":")
         plans = [(tuple(names.split(",")), gran, int(bound))]
@@ -204,7 +232,8 @@ def run(tier, seed):
              "memo keys; cold compile of two programs), all schedules with <= bound preemptions; scheduling points: the "
              "cooperative replacement of cache_lock, every line of find_first_common_next_vertex_in_edges and its clear_cache, "
              "function entries of the graph passes ('+entries'), lines or entries of antlr4's addDFAState / addDFAEdge / "
-             "PredictionContextCache ('antlr-*'); every execution in a fresh fork of a cold template; oracle: each call's "
+             "PredictionContextCache ('antlr-*'), function entries of the block / label / loop / if write handlers and of the "
+             "decompiler object ('writer-entries', two routine sets with a forever loop each); every execution in a fresh fork of a cold template; oracle: each call's "
              "result equals its result when run alone, no exception, no deadlock; failures are replayed twice; plus a "
              "free-running pass of the same bodies without scheduler; states / transitions = scheduling points passed over all "
              "executions; evaluations = executions; non-trivial = schedule with at least one deviation",
